@@ -467,9 +467,34 @@ def _is_generator(fn):
                for n in _own_nodes(fn))
 
 
+def _write_only(tree, names):
+    """Module containers whose every use in the module is as the base of a
+    subscript that is assigned or augmented."""
+    stores = set()
+    for n in ast.walk(tree):
+        tg = []
+        if isinstance(n, ast.AugAssign):
+            tg = [n.target]
+        elif isinstance(n, ast.Assign):
+            tg = n.targets
+        for t in tg:
+            if isinstance(t, ast.Subscript) and isinstance(t.value, ast.Name):
+                stores.add(id(t.value))
+    read = set()
+    for n in ast.walk(tree):
+        if isinstance(n, ast.Name) and n.id in names and \
+                isinstance(n.ctx, ast.Load) and id(n) not in stores:
+            read.add(n.id)
+    return names - read
+
+
 def scan_module(tree):
     """-> list of dicts {fn, chain, memo, rule, line, text, sites}."""
     memos = module_containers(tree)
+    # a container nothing CONSULTS (statistics: every use is `m[k] += v` or
+    # `m[k] = v`) remembers nothing a later call could be answered from
+    for m_ in _write_only(tree, set(memos)):
+        memos.pop(m_, None)
     chains = _fn_chains(tree)
     decorated_count = {}
     decorated_by = {}
